@@ -19,7 +19,8 @@ CONSTANTS NF,        \* number of frames
           MaxPid,    \* page ids 0..MaxPid
           MaxVer,    \* content versions 0..MaxVer
           MaxPin,    \* bound on pins per page (model only)
-          FixDealloc
+          FixDealloc,
+          Races      \* explore FlushPage as two halves (pin + write ... unpin) with other users' steps in between
 
 Fid == 0..(NF - 1)
 Pid == 0..MaxPid
@@ -36,10 +37,11 @@ VARIABLES fr,      \* b.pages : [Fid -> frame record]
           disk,    \* [Pid -> version \cup {Never}]
           latest, live,      \* ghosts
           virgin,            \* ghost: allocated by NewPage and not yet written by its owner
+          fl,                \* pages with a FlushPage call in flight (it holds a pin of its own)
           reply
 
-vars  == <<fr, pt, free, repl, reuse, nextPid, disk, latest, live, virgin, reply>>
-svars == <<fr, pt, free, repl, reuse, nextPid, disk, latest, live, virgin>>
+vars  == <<fr, pt, free, repl, reuse, nextPid, disk, latest, live, virgin, fl, reply>>
+svars == <<fr, pt, free, repl, reuse, nextPid, disk, latest, live, virgin, fl>>
 
 Init == /\ fr = [f \in Fid |-> EmptyFrame]
         /\ pt = [p \in Pid |-> NoFrame]
@@ -50,7 +52,7 @@ Init == /\ fr = [f \in Fid |-> EmptyFrame]
         /\ disk = [p \in Pid |-> Never]
         /\ latest = [p \in Pid |-> 0]
         /\ live = {}
-        /\ virgin = {}
+        /\ virgin = {} /\ fl = {}
         /\ reply = [op |-> "init"]
 
 Resident(p) == pt[p] # NoFrame
@@ -106,6 +108,20 @@ FetchPage(p) ==
                  /\ reply' = [op |-> "Fetch", pid |-> p, val |-> t.disk[p], expect |-> latest[p], victimPin |-> t.victimPin]
                  /\ UNCHANGED <<nextPid, latest, live, virgin>>
 
+(* FetchPage of a page that is not in the db file (the read fails): a frame has been taken for it all the same -   *)
+(* a victim was evicted - and is given back to the free list (FetchPage's error path)                              *)
+FetchMissing ==
+  \/ /\ ~CanTake /\ reply' = [op |-> "FetchMissing", pid |-> -1, victimPin |-> 0]
+     /\ UNCHANGED <<fr, pt, free, repl, reuse, nextPid, disk, latest, live, virgin>>
+  \/ /\ CanTake
+     /\ \E f \in Candidates :
+          LET t == Take(f) IN
+          /\ fr' = [fr EXCEPT ![t.f] = EmptyFrame]
+          /\ pt' = t.pt /\ disk' = t.disk /\ reuse' = t.reuse /\ repl' = t.repl
+          /\ free' = Append(t.free, t.f)
+          /\ reply' = [op |-> "FetchMissing", pid |-> -1, victimPin |-> t.victimPin]
+          /\ UNCHANGED <<nextPid, latest, live, virgin>>
+
 (* a user holding a pin stores a new version and unpins with isDirty = TRUE *)
 WriteUnpin(p) ==
   /\ Resident(p) /\ fr[pt[p]].pin > 0 /\ fr[pt[p]].pid = p /\ latest[p] < MaxVer
@@ -134,6 +150,26 @@ FlushPage(p) ==
      /\ fr' = [fr EXCEPT ![f].dirty = FALSE]
      /\ reply' = [op |-> "Flush", pid |-> p]
      /\ UNCHANGED <<pt, free, repl, reuse, nextPid, latest, live, virgin>>
+
+(* FlushPage is not one critical section: it pins the page under the mutex, writes it outside the mutex and unpins it  *)
+(* under the mutex again (the pin keeps the frame from being chosen as a victim meanwhile).  FlushPage(p) above is the  *)
+(* uninterrupted call; FlushHold / FlushRelease are its two halves, with other users' steps in between.                *)
+FlushHold(p) ==
+  /\ p \in live /\ Resident(p) /\ fr[pt[p]].pin < MaxPin /\ p \notin fl /\ fl' = fl \cup {p}
+  /\ LET f == pt[p] IN
+     /\ disk' = [disk EXCEPT ![p] = fr[f].val]
+     /\ fr' = [fr EXCEPT ![f] = [@ EXCEPT !.dirty = FALSE, !.pin = @ + 1]]
+     /\ repl' = repl \ {f}
+     /\ reply' = [op |-> "FlushHold", pid |-> p]
+     /\ UNCHANGED <<pt, free, reuse, nextPid, latest, live, virgin>>
+FlushRelease(p) ==
+  /\ p \in fl /\ fl' = fl \ {p}
+  /\ Resident(p) /\ fr[pt[p]].pin > 0
+  /\ LET f == pt[p] IN
+     /\ fr' = [fr EXCEPT ![f].pin = @ - 1]
+     /\ repl' = IF fr[f].pin = 1 THEN repl \cup {f} ELSE repl
+     /\ reply' = [op |-> "FlushRelease", pid |-> p]
+     /\ UNCHANGED <<pt, free, reuse, nextPid, disk, latest, live, virgin>>
 
 (* DeallocatePage(p, noWait = TRUE): hash join drops its temporary pages this way, the last one *)
 (* while it still holds its pin.                                                               *)
@@ -167,9 +203,24 @@ LazyDeallocUnpin(p) ==
      /\ reply' = [op |-> "LazyDeallocUnpin", pid |-> p]
      /\ UNCHANGED <<pt, free, reuse, nextPid, disk, latest>>
 
-Next == \/ NewPage
-        \/ \E p \in Pid : FetchPage(p) \/ WriteUnpin(p) \/ UnpinClean(p) \/ FlushPage(p)
-                          \/ DeallocNoWait(p) \/ LazyDeallocUnpin(p)
+Steps == \/ NewPage \/ FetchMissing
+         \/ \E p \in Pid : FetchPage(p) \/ WriteUnpin(p) \/ UnpinClean(p) \/ FlushPage(p)
+                           \/ DeallocNoWait(p) \/ LazyDeallocUnpin(p)
+(* pins held by users: a FlushPage call in flight holds one pin that belongs to nobody else *)
+UserPin(p) == fr[pt[p]].pin - (IF p \in fl THEN 1 ELSE 0)
+NewPageF == NewPage /\ UNCHANGED fl
+FetchMissingF == FetchMissing /\ UNCHANGED fl
+FetchPageF(p) == FetchPage(p) /\ UNCHANGED fl
+WriteUnpinF(p) == Resident(p) /\ UserPin(p) > 0 /\ WriteUnpin(p) /\ UNCHANGED fl
+UnpinCleanF(p) == Resident(p) /\ UserPin(p) > 0 /\ UnpinClean(p) /\ UNCHANGED fl
+FlushPageF(p) == FlushPage(p) /\ p \notin fl /\ UNCHANGED fl
+DeallocNoWaitF(p) == DeallocNoWait(p) /\ UNCHANGED fl
+LazyDeallocUnpinF(p) == Resident(p) /\ UserPin(p) > 0 /\ LazyDeallocUnpin(p) /\ UNCHANGED fl
+FlushHoldR(p) == Races /\ FlushHold(p)
+FlushReleaseR(p) == Races /\ FlushRelease(p)
+Next == \/ NewPageF \/ FetchMissingF
+        \/ \E p \in Pid : FetchPageF(p) \/ WriteUnpinF(p) \/ UnpinCleanF(p) \/ FlushPageF(p)
+                          \/ DeallocNoWaitF(p) \/ LazyDeallocUnpinF(p) \/ FlushHoldR(p) \/ FlushReleaseR(p)
 
 Spec == Init /\ [][Next]_vars
 
@@ -177,7 +228,7 @@ Spec == Init /\ [][Next]_vars
 (* C13: "reading a page yields the bytes most recently written to it"        *)
 Coherent == [][reply'.op = "Fetch" => reply'.val = reply'.expect]_vars
 (* "a page that is in use is never evicted or handed to another page id"     *)
-PinSafe == [][reply'.op \in {"Fetch", "New"} => reply'.victimPin = 0]_vars
+PinSafe == [][reply'.op \in {"Fetch", "New", "FetchMissing"} => reply'.victimPin = 0]_vars
 ReplacerPinFree == \A f \in repl : fr[f].pin = 0
 (* "a newly allocated page id is never one that is still in use"             *)
 FreshId == [][reply'.op = "New" => reply'.fresh]_vars
